@@ -116,5 +116,11 @@ CE:
 """
 neg("neg-asm-deccpyinv-2way",S,INV_OLD,INV_2WAY,["ASM"],note="a different unroll factor with loads before stores and a matching index step is fine")
 pos("asm-deccpyinv-step-mismatch",S,INV_OLD,INV_OLD.replace("	SUBQ $4, SI		// n -= 4","	SUBQ $3, SI		// n -= 4"),"ASM","lanes/decCpyInv",note="index step differs from the number of lanes")
+
+# reverts of the two precision wrap-around fixes
+pos("revert-F17-gobencode-uint32-wordcount","decimal_marsh.go","		n = int((uint64(x.prec) + (_DW - 1)) / _DW) // required","		n = int((x.prec + (_DW - 1)) / _DW) // required","PRECWRAP","GobEncode",quick=True,note="F17")
+pos("revert-F18-setfloat64-prec-increment","decimal.go","		prec := z.prec\n		if z.prec < MaxPrec {\n			z.prec++\n		}\n		t := new(Decimal).SetPrec(uint(z.prec))\n		if exp2 < 0 {\n			z = z.Quo(z, t.pow2(uint64(-exp2)))\n		} else {\n			z = z.Mul(z, t.pow2(uint64(exp2)))\n		}\n		z.prec = prec","		z.prec++\n		t := new(Decimal).SetPrec(uint(z.prec))\n		if exp2 < 0 {\n			z = z.Quo(z, t.pow2(uint64(-exp2)))\n		} else {\n			z = z.Mul(z, t.pow2(uint64(exp2)))\n		}\n		z.prec--","PRECWRAP","SetFloat64",quick=True,note="F18")
+pos("tconv-setfloat64-no-guard-digit","decimal.go","		prec := z.prec\n		if z.prec < MaxPrec {\n			z.prec++\n		}\n		t := new(Decimal).SetPrec(uint(z.prec))\n		if exp2 < 0 {\n			z = z.Quo(z, t.pow2(uint64(-exp2)))","		prec := z.prec\n		t := new(Decimal).SetPrec(uint(z.prec))\n		if exp2 < 0 {\n			z = z.Quo(z, t.pow2(uint64(-exp2)))","T-CONV","SetFloat64(",note="the scaling loses its guard digit")
+pos("asm-defuse-index-not-initialised",S,"	MOVQ y+48(FP), CX	// c = y\n	MOVQ z+0(FP), R10\n\n	MOVQ $0, SI			// i = 0\n","	MOVQ y+48(FP), CX	// c = y\n	MOVQ z+0(FP), R10\n\n","ASM","defuse/·add10VW",quick=True)
 json.dump(C,open("seedrules.json","w"),indent=1,ensure_ascii=False)
 print(len(C),"controls")
